@@ -119,7 +119,7 @@ func genParCase(t *rapid.T) parCase {
 		items := rapid.IntRange(1, 10).Draw(t, "buffers")
 		var w []parItem
 		for i := 0; i < items; i++ {
-			it := parItem{Shape: rapid.SampledFrom([]string{"", "", "", "", "", "string", "struct", "zerosize"}).Draw(t, "shape")}
+			it := parItem{Shape: rapid.SampledFrom([]string{"", "", "", "", "", "", "string", "struct", "zerosize", "byte", "bool", "float64", "named_string"}).Draw(t, "shape")}
 			if it.Shape == "" {
 				it.Cap = rapid.OneOf(rapid.IntRange(0, 8), rapid.IntRange(0, 100), rapid.IntRange(0, 5000)).Draw(t, "cap")
 			} else {
